@@ -235,11 +235,15 @@ CHECKS["C02"] = dict(
                 "the posix backend does; the signature computation is a recording stand-in. Oracle: every mutating backend call happens after a "
                 "verification that succeeded; a 2xx answer implies one; missing/unknown/invalid credentials end in an error without successful "
                 "mutation. Second harness: AuthReader under each of the three chunk decoders on valid streams - the verification has run by the "
-                "time the decoder reports EOF. H02b: ValidateDate for an arbitrary request date and clock: accepted exactly within 15 minutes.",
+                "time the decoder reports EOF. H02b: ValidateDate for an arbitrary request date and clock: accepted exactly within 15 minutes. "
+                "H02c: the chain and routes the real admin server constructor installs, for every admin route and four kinds of credentials: account and "
+                "bucket-owner effects only after a verification that succeeded for an admin account.",
     harnesses=[
         dict(name="H02a-chain", pkgs=["./s3api"], entry="s3api.VfAuthChain", redirects="spec/redirects_auth.json", reach=["answered", "handler-entered"],
              key_trace=['"route=', '"call='], panic_ok=True),
         dict(name="H02a-deferred", pkgs=["./s3api/utils"], entry="s3api/utils.VfDeferredAuth", redirects="spec/redirects_deferred.json", reach=["drained", "accepted"]),
+        dict(name="H02c-admin", pkgs=["./s3api"], entry="s3api.VfAdminAuthChain", redirects="spec/redirects_auth.json", reach=["answered", "admin-served"],
+             key_trace=['"route=']),
         dict(name="H02b-date", pkgs=["./s3api/utils"], entry="s3api/utils.VfDateWindow", redirects="spec/redirects.json", reach=["accepted", "refused"]),
     ],
     assumptions=["the middleware chain per route is the one the real server constructor installs (s3api.New -> app.Use / S3ApiRouter.Init, executed on a recording fiber.App model); route matching itself (fiber) is not modelled",
@@ -247,7 +251,7 @@ CHECKS["C02"] = dict(
                  "the posix backend's body consumption is modelled by the recorder hooks (reads to EOF, fails on read error; directory objects unread)",
                  "access/lock decision functions are stand-ins; time.Now is a fixed instant inside the request's validity window"],
     outside=["aws/signer/v4 (canonical request, HMAC chain, header selection in createHttpRequestFromCtx)",
-             "presigned expiry arithmetic (validateExpiration goes through float64 seconds: floats are not encoded)", "admin API", "body content beyond 2 bytes in the chain harness"],
+             "presigned expiry arithmetic (validateExpiration goes through float64 seconds: floats are not encoded)", "body content beyond 2 bytes in the chain harness"],
 )
 
 _FS = dict(pkgs=["./backend/posix"], redirects="spec/redirects_fs.json", pkgname="posix")
